@@ -13,7 +13,9 @@ RULE = ("life: a machine with the built-in attract mode (start-tagged switch) an
         "logic_block_timeout / multiple_hit_window / delayed enable_events, timers with control events, event_player and "
         "variable_player entries incl. conditional ones) is driven by a script of direct start()/stop(), posted and "
         "queue-posted events, device events, time steps on a 1/8 s grid, with reaction handlers on lifecycle events "
-        "that issue start/stop requests (budgeted), queue blockers on mode_<m>_starting/stopping that are released "
+        "that issue start/stop requests incl. the restart idiom mode.stop(callback=mode.start) (budgeted), handlers on "
+        "lifecycle events (mostly will_stop/stopping/stopped) that register delays on mode.delay, switch handlers via "
+        "mode.switch_handlers and event handlers via mode.add_mode_event_handler, queue blockers on mode_<m>_starting/stopping that are released "
         "later, and trace handlers on a random subset of lifecycle events.  Every execution of Mode.start/stop/"
         "_started/_mode_started_callback/_stopped/_mode_stopped_callback is observed (status, posted lifecycle events, "
         "active_modes, the mode's flags, everything the mode owns in the event/switch/delay registries) and replayed "
